@@ -13,6 +13,8 @@ THEMES = [
     "an unusual but legal input class (rare characters, extreme sizes or depths, values of an unexpected Python type such as float/int/None targets, empty containers, repeated values, aliasing of the same object passed twice) reaching rarely executed code",
     "state that survives from one call to a later call (a cache, a shared mutable default, a module-level object, an attribute set lazily) so that only a particular multi-step sequence of calls shows the break",
 ]
+if os.environ.get('SEED_THEME'):
+    THEMES = [os.environ['SEED_THEME']] * 4   # one theme for the whole round
 NEUTRAL = len(sys.argv) > 1 and sys.argv[1] == '--neutral'
 if NEUTRAL:
     del sys.argv[1]
